@@ -3,5 +3,5 @@ CONSTANTS
     Variant = "current"
     NFiles = 4
     MaxIncs = 2
-INVARIANTS NoLoop OnceRespected Terminates AcyclicFine SoundVsExpand
+INVARIANTS NoLoop OnceRespected Terminates AcyclicFine MatchesExpand
 CHECK_DEADLOCK FALSE
